@@ -241,3 +241,35 @@ PROPS['C18'] = {
     'bounds': {'quick': 'all pairs/triples, g++', 'thorough': 'same under g++ and clang++'},
     'technique': 'bounded-exhaustive enumeration of all pairs and triples over a finite value alphabet on the real code',
 }
+
+
+def _c20_group(name):
+    # C20/<program set>/<policy configuration...>; pool units: C20/pool/<Type>/<threading>/mem<XX>; dispatch cells: the whole name
+    parts = name.split('/')
+    if parts[0] == 'C04':
+        return name
+    if len(parts) > 2 and parts[1] == 'pool':
+        return '/'.join(parts[:3])
+    return '/'.join(parts[:2])
+
+
+_ALL16 = ['g11', 'g11O0', 'g14', 'g14O2', 'g17', 'g17O0', 'g20', 'g20O0', 'c11', 'c11O2', 'c14', 'c14O0', 'c17', 'c17O2', 'c20', 'c20O0']
+_ALL12 = [v for v in _ALL16 if '11' not in v]
+_CORNER = ['g11', 'g17O0', 'c11', 'c20']
+PROPS['C20'] = {
+    'title': 'Behaviour is independent of policies, compiler, standard level, prior memory',
+    'level': 'exploration',
+    'engine': 'X',
+    'parts': [{'src': 'harness/list.cpp', 'prefix': 'C20/', 'variants': _ALL16, 'quick_variants': _CORNER, 'defs': ['VERIF_ONLY=20', 'VERIF_SUB=%d' % i]} for i in range(2)]
+           + [{'src': 'harness/queue.cpp', 'prefix': 'C20/', 'variants': _ALL16, 'quick_variants': _CORNER, 'defs': ['VERIF_ONLY=20', 'VERIF_SUB=%d' % i]} for i in range(2)]
+           + [{'src': 'harness/pool.cpp', 'prefix': 'C20/', 'variants': _ALL16, 'quick_variants': _CORNER, 'defs': ['VERIF_PREFIX="C20/pool"', 'VERIF_ALLPATTERNS', 'VERIF_SUB=%d' % i]} for i in (0, 2, 5)]
+           + [{'src': 'harness/pool.cpp', 'prefix': 'C20/', 'variants': _ALL16, 'tier': 'thorough', 'defs': ['VERIF_PREFIX="C20/pool"', 'VERIF_ALLPATTERNS', 'VERIF_SUB=%d' % i]} for i in (1, 3, 4)]
+           + [{'src': 'harness/dispatch.cpp', 'prefix': 'C04/', 'variants': ['g14', 'c14'], 'tier': 'quick', 'defs': ['VERIF_SUB=2', 'VERIF_FULL=0']}]
+           + [{'src': 'harness/dispatch.cpp', 'prefix': 'C04/', 'variants': _ALL12, 'tier': 'thorough', 'defs': ['VERIF_SUB=%d' % i, 'VERIF_FULL=0']} for i in range(5)],
+    'rule': 'configuration product: the generated program sets of C01 (CallbackList/EventDispatcher flat and nested), C04 (dispatch type-matrix cells), C05 (EventQueue flat and nested-consume) and C10 (object pools of 6 container types) are compiled and explored under compilers {g++ 12, clang++ 14} x {-O0/-O1, -O2} x -std={c++11, c++14, c++17, c++20} (C04 cells: c++14 and later) x Threading {SingleThreading, injected V-policy, SpinLock, std::mutex} x Map {std::unordered_map, std::map, user template} x Callback {std::function, comparable functor} x prior memory {0xFF, 0x00, 0xA5}; every configuration must agree with the reference model on every execution AND the hash of the complete observable trace of the whole exploration must be identical for all configurations of a program set; distinct = distinct per-execution observation hashes',
+    'assumptions': ['compilers limited to the two installed (libstdc++ only); MSVC-specific paths and the __GNUC__ < 5 variant of CallbackList::operator() are not compiled', 'the uninitialised-state clause is made deterministic by pre-filling object storage with three byte patterns (no MemorySanitizer run: its uninstrumented libstdc++ would raise false reports)'] + H_ASSUME[:1],
+    'bounds': {'quick': '4 corner build configurations {g++ c++11 -O2, g++ c++17 -O0, clang++ c++11 -O0, clang++ c++20 -O2} x list/queue/pool program sets (depth 3-5) + std::string dispatch cells under g++/clang++ c++14', 'thorough': 'all 16 build configurations x all program sets (depth 4-7), 12 for the dispatch cells'},
+    'technique': 'bounded exhaustive exploration of identical generated programs under a product of build and policy configurations, with cross-configuration comparison of the complete observable trace',
+    'cross_config': _c20_group,
+    'deadline': {'quick': 170, 'thorough': 1700},
+}
